@@ -263,7 +263,8 @@ def dataNames : List String :=
 def nonDataNames : List String :=
   ["VERIF", "PING", "ECHO", "SELECT", "FLUSHALL", "SLEEP", "CONFIG", "SAVE", "BGSAVE", "LASTSAVE", "BGREWRITEAOF", "INFO", "SLOWLOG",
    "CLIENT", "AUTH", "REPLICAOF", "SLAVEOF", "SYNC", "PSYNC", "QUIT", "COMMAND", "SHUTDOWN", "SCRIPT",
-   "PUBLISH"]   -- PUBLISH has an arm since b37919c (a queued PUBLISH run by EXEC); no key space involved
+   "PUBLISH",   -- PUBLISH has an arm since b37919c (a queued PUBLISH run by EXEC); no key space involved
+   "UNWATCH"]   -- UNWATCH has an arm since 7dd14e2 (a queued UNWATCH run by EXEC answers OK); no key space involved
 
 /-- Every arm of the dispatch is classified: a command added to the server without deciding whether it touches
     the key space breaks this theorem. -/
